@@ -513,6 +513,25 @@ def variant_arms(prog, f, adt_last, variant):
                 for sx in f.succs()[w]:
                     if sx != tb:
                         out.append((w, sx))
+    # ... or through a predicate method of the enum (`if outcome.permits_key_generation() { .. } else { <arm> }`): a workspace function
+    # from the enum to bool whose answer for this variant is a constant; the "arm" is the side of its test with that answer
+    import dtable as _D
+    for c in f.live_calls():
+        for t in prog.call_targets(c):
+            if t.ret != "bool" or t.nargs != 1 or t.is_closure() or last_seg((t.locals[1] or "").replace("&", "")) != adt_last:
+                continue
+            try:
+                ev = _D.Evaluator(t, lambda v: None, lambda a, b: None, lambda bb, v, tt: None, prog=prog)
+                res = ev.run({1: ("variant", adt_last, variant, ())})
+            except _D.Undecided:
+                continue
+            if not res or res[0] != "int":
+                continue
+            for (w, tb) in bool_true_edges(f, c):
+                if res[1]:
+                    out.append((w, tb))
+                else:
+                    out += [(w, sx) for sx in f.succs()[w] if sx != tb]
     return out
 
 
@@ -996,12 +1015,83 @@ TRANSPARENT_CALLS = {"clone", "deref", "deref_mut", "borrow", "as_ref", "as_mut"
                      "copied", "cloned", "new"}
 
 
-def producers(prog, f, local, scope=None, max_frames=5, _seen=None, _out=None):
+def producers(prog, f, local, scope=None, max_frames=5, _seen=None, _out=None, _pend=()):
+    """copy provenance of a value.  Field-sensitive through records: reading `.x` of a value that was built as `S { x: a, y: b }`
+    (also across a call: a parameter struct filled by the caller, destructured by the callee) follows `a` only"""
     out = _out if _out is not None else {"calls": [], "consts": [], "fields": set(), "params": []}
     seen = _seen if _seen is not None else {}
-    key = (f.path, local)
+    key = (f.path, local, _pend)
     if max_frames < 0 or seen.get(key, -1) >= max_frames:
         return out
+    seen[key] = max_frames
+
+    def named(pl):
+        return tuple(e[1:] for e in pl[1:] if isinstance(e, str) and e.startswith(".") and not e[1:].isdigit())
+    st = [(local, _pend)]
+    visited = set()
+    while st:
+        l, pend = st.pop()
+        if (l, pend) in visited:
+            continue
+        visited.add((l, pend))
+        defs = f.defs().get(l, [])
+        if not defs and 1 <= l <= f.nargs:
+            pass
+        for bb, kind, x in defs:
+            if kind == "stmt":
+                k = x.get("k")
+                if k in ("use", "ref", "cast", "agg", "tuple") and len(x["d"]) == 1:
+                    if k == "agg" and not x.get("o"):
+                        out["consts"].append((f, bb, {"agg": x.get("adt"), "variant": x.get("variant")}))
+                    ops = list(x.get("o", []))
+                    npend = pend
+                    if k == "agg" and pend and x.get("fields") and pend[0] in x["fields"] and len(x["fields"]) == len(ops):
+                        # the record the pending field is read from: only that field's value flows on
+                        ops = [ops[x["fields"].index(pend[0])]]
+                        npend = pend[1:]
+                    elif k in ("agg", "tuple"):
+                        npend = ()
+                    for o in ops:
+                        if "p" in o:
+                            fl = named(o["p"])
+                            out["fields"] |= set(fl)
+                            st.append((o["p"][0], fl + npend if k in ("use", "ref", "cast") else npend))
+                        elif "c" in o:
+                            out["consts"].append((f, bb, o["c"]))
+                elif len(x["d"]) == 1:
+                    out["consts"].append((f, bb, {"op": k}))
+            else:
+                c = x
+                if c.dst and c.dst[0] != l:
+                    continue     # &mut side effect, not the producer
+                if c.name in TRANSPARENT_CALLS and c.args and "p" in c.args[0] and (
+                        c.krate in ("core", "alloc", "std") or c.name in ("as_u64", "as_secs", "as_slice")
+                        or last_seg(c.trait) in ("Clone", "Deref", "DerefMut", "AsRef", "Borrow", "Into", "From", "ToOwned", "ToString")):
+                    if c.name == "new" and last_seg(c.self_adt) not in ("Secret",):
+                        out["calls"].append(c)
+                        continue
+                    fl = named(c.args[0]["p"])
+                    out["fields"] |= set(fl)
+                    st.append((c.args[0]["p"][0], fl + pend))
+                else:
+                    out["calls"].append(c)
+        if 1 <= l <= f.nargs and not any(k2 == "stmt" for _, k2, _ in defs):
+            callers = [prog.fns[p] for p in sorted(prog.redges().get(f.path, ())) if (scope is None or p in scope) and not prog.fns[p].is_test_like()]
+            if not callers or f.is_closure():
+                out["params"].append((f, l))
+            for cf in callers:
+                if f.is_closure():
+                    continue
+                for c in cf.live_calls():
+                    if any(t.path == f.path for t in prog.call_targets(c)) and l - 1 < len(c.args):
+                        a = c.args[l - 1]
+                        if "p" in a:
+                            fl = named(a["p"])
+                            out["fields"] |= set(fl)
+                            producers(prog, cf, a["p"][0], scope, max_frames - 1, seen, out, fl + pend)
+                        elif "c" in a:
+                            out["consts"].append((cf, c.bb, a["c"]))
+    return out
     seen[key] = max_frames
     st = [local]
     visited = set()
